@@ -14,6 +14,78 @@ from flow import resolve, resolve_place, leaves, show, walk
 from cfgq import calls_to, region_calls_to, arg_expr, arg_leaves, option_some_edges, must_pass
 
 
+def kind_tests(f, variant):
+    """[(edge, subject expression)] — CFG edges on which `subject` is known to be TokenKind::<variant>:
+    true edges of `TokenKind == <variant>` and the arms of a discriminant switch."""
+    from cfgq import call_result_edges, variant_arm_blocks
+    out = []
+    for b, t in f.calls():
+        if not (callee_key(t) or "").endswith("lexer::TokenKind as std::cmp::PartialEq>::eq"):
+            continue
+        es = [resolve(f, a) for a in t["args"]]
+        txt = [full(e) for e in es]
+        for me, other in ((1, 0), (0, 1)):
+            if txt[me].replace("&", "").replace("(", "").replace(")", "").replace("*", "") == "TokenKind::" + variant:
+                for e_ in call_result_edges(f, b)[0]:
+                    out.append((e_, es[other]))
+    for b, tgt in variant_arm_blocks(f, "lexer::TokenKind", variant):
+        # subject: what the discriminant was read from
+        for i, j, st in f.iter_stmts():
+            if st["k"] == "assign" and st["rv"]["k"] == "discr" and i == b:
+                from cfgq import lifted_edges
+                for e_ in lifted_edges(f, (b, tgt)):
+                    out.append((e_, resolve_place(f, st["rv"]["place"]) if "place" in st["rv"] else ("unknown",)))
+    return out
+
+
+def d_line_start(chk, F, f):
+    """Both scanners must agree on what 'a `>>` at the start of a line' is. The full scanner cuts lines at Newline
+    TOKENS (pull_line) and tests the first token of each line (is_single_line_marker); the metadata-only scanner must
+    leave its search loop only when the peeked token is MetadataStart and the previously consumed token was a Newline
+    token (or nothing was consumed yet) — decided from the token stream alone, never from the input text."""
+    phase2 = [b for b, t in calls_to(f, "Vec::<T, A>::push") if ".block" in full(arg_expr(f, t, 0))]
+    if not phase2:
+        chk.fail("anchor-missing", "next_metadata_block|push", f"{f.file}:{f.line}", "anchor-missing: next_metadata_block no longer collects tokens into self.block")
+        return
+    tgt = phase2[0]
+    def peeked(e):
+        ls = leaves(e)
+        return any(l.endswith("Peekable::<I>::peek") for l in ls) and not any("input" in l for l in ls if l.startswith("param:"))
+    meta = [(e_, sub) for e_, sub in kind_tests(f, "MetadataStart") if f.edge_dominates(e_, tgt)]
+    ok_meta = any(peeked(sub) and ".kind" in full(sub) for _, sub in meta)
+    chk.expect(ok_meta, "C14.D-line-start", "next_metadata_block|peeked token is `>>`", f"{f.file}:{f.line}",
+               "the metadata-only scanner starts an entry without having tested that the peeked token is MetadataStart",
+               sample=f"{f.file}:{f.line}: entry collection dominated by peek().kind == MetadataStart")
+    nl = [(e_, sub) for e_, sub in kind_tests(f, "Newline") if f.edge_dominates(e_, tgt)]
+    ok_nl = False
+    why = "no dominating `== Newline` test on the previously consumed token"
+    for _, sub in nl:
+        ls = leaves(sub)
+        calls = {l for l in ls if l.startswith("call:")}
+        allowed = all(l.endswith(("Peekable::<I>::peek", "Try>::branch", "Iterator>::next", "Iterator::next")) for l in calls)
+        has_init = "TokenKind::Newline" in full(sub)
+        uses_input = any(l.startswith("param:self.input") or "input" in l for l in ls if l.startswith("param:"))
+        if allowed and has_init and any(n[0] == "phi" for n in walk(sub)) and not uses_input:
+            ok_nl = True
+        else:
+            why = f"the line-start test reads {full(sub)[:100]}"
+    chk.expect(ok_nl, "C14.D-line-start", "next_metadata_block|previous token is Newline", f"{f.file}:{f.line}",
+               "the metadata-only scanner does not decide 'start of line' the way the full scanner does (previous TOKEN is a Newline token, initially true): "
+               + why + " — an escaped line break or a `>>` inside a comment would be an entry for one scanner and text for the other",
+               sample=f"{f.file}:{f.line}: entry collection dominated by last == Newline, last ∈ {{Newline, previously peeked kind}}")
+    # sibling: pull_line cuts at Newline tokens
+    pl = [g for g in F.funcs.values() if g.key.endswith("::pull_line") and not g.is_closure()]
+    if len(pl) != 1:
+        chk.fail("anchor-missing", "pull_line", "", "anchor-missing: PullParser::pull_line not found")
+        return
+    g = pl[0]
+    cuts = [(e_, sub) for e_, sub in kind_tests(g, "Newline")]
+    ok = any(".kind" in full(sub) and any(l.endswith(("Iterator>::next", "Iterator::next")) for l in leaves(sub)) for _, sub in cuts)
+    chk.expect(ok, "C14.D-line-start", "pull_line|cuts at Newline token", f"{g.file}:{g.line}",
+               "pull_line no longer ends a line at the Newline token: the two scanners disagree on line boundaries",
+               sample=f"{g.file}:{g.line}: line ends at tok.kind == Newline")
+
+
 def full(e):
     import flow
     return flow.show(e, -50)
@@ -91,6 +163,7 @@ def run(chk: harness.Check):
     chk.expect(ok, "C14.D-entry-emitted", "next_metadata_block", f"{f.file}:{f.line}",
                "an entry parsed by metadata_entry in the metadata-only scanner can be dropped before it is emitted: the full parse would still see it",
                sample=f"{f.file}:{f.line}: every Some(entry) of metadata_entry is passed to bp.event")
+    d_line_start(chk, F, f)
     # the metadata scanner handles front matter like the full one: the queued front matter event is popped first
     nm = [g for g in F.funcs.values() if g.key.endswith("::next_metadata") and not g.is_closure()]
     nx = [g for g in F.funcs.values() if g.key == "cooklang::<parser::PullParser<T> as std::iter::Iterator>::next"]
